@@ -359,6 +359,7 @@ func runC04(c *run.Ctx, s *kit.Summary) {
 		twoAttacks(s, r)
 	}
 	deadlineRace(c, s, r)
+	rateZeroDeadline(c, s, r)
 	// last: these attacks cannot be ended (the loop sleeps for the wait it was given), so their goroutines stay
 	for i := 0; i < c.N(10, 120); i++ {
 		pk := parkCase{Workers: uint64(r.Pick(4)), Max: uint64(1 + r.Pick(4))}
@@ -582,5 +583,63 @@ func deadlineRace(c *run.Ctx, s *kit.Summary, r *kit.Rng) {
 		s.Violate(kit.Violation{Kind: "pace_consulted_after_deadline", What: "the pacer was consulted with an elapsed time beyond the attack's duration",
 			Input:    map[string]interface{}{"scenario": fmt.Sprintf("%d unpaced attacks of %s each, 2 workers, instant transport", n, du), "duration_ns": int64(du)},
 			Expected: fmt.Sprintf("every elapsed argument <= %s", du), Observed: fmt.Sprintf("%d of %d consultations beyond the duration, worst %s", late, total, worst)})
+	}
+}
+
+// rateZeroDeadline: the library's own infinite-rate pacer (`-rate=0`: a ConstantPacer whose Freq or Per is zero) with a
+// duration, a worker cap and a transport that takes at least L per exchange. Every hit occupies a worker for at
+// least L, so before the deadline a worker can start at most floor(D/L)+1 hits; after the deadline at most the one hit
+// whose wait had been requested is released. Hence — from lower bounds on time only — the attack makes at most
+// workers·(floor(D/L)+1)+1 hits, whatever the scheduler does.
+func rateZeroDeadline(c *run.Ctx, s *kit.Summary, r *kit.Rng) {
+	for i := 0; i < c.N(3, 24); i++ {
+		w := uint64(1 + r.Pick(3))
+		L := time.Duration(30+r.Pick(40)) * time.Millisecond
+		D := time.Duration(150+r.Pick(150)) * time.Millisecond
+		var started int64
+		client := attackctl.NewFakeClient(func(uint64) {
+			atomic.AddInt64(&started, 1)
+			time.Sleep(L)
+		})
+		var p vegeta.Pacer
+		switch i % 3 {
+		case 0:
+			p = vegeta.Rate{}
+		case 1:
+			p = vegeta.Rate{Freq: 0, Per: time.Second}
+		default:
+			p = &vegeta.ConstantPacer{Freq: 7, Per: 0}
+		}
+		atk := vegeta.NewAttacker(vegeta.Workers(w), vegeta.MaxWorkers(w), vegeta.Client(client))
+		res := atk.Attack(vegeta.NewStaticTargeter(vegeta.Target{Method: "GET", URL: "http://verif.invalid/"}), p, D, "c04rate0")
+		n := 0
+		timeout := time.After(60 * time.Second)
+		closed := false
+	drain:
+		for {
+			select {
+			case _, ok := <-res:
+				if !ok {
+					closed = true
+					break drain
+				}
+				n++
+			case <-timeout:
+				atk.Stop()
+				break drain
+			}
+		}
+		s.Case(fmt.Sprint("rate0:", i), true)
+		s.Count("rate_zero_with_duration:runs")
+		in := map[string]interface{}{"pacer": fmt.Sprintf("%#v", p), "duration": D.String(), "workers": w, "max_workers": w, "transport_latency_at_least": L.String()}
+		bound := int(w)*(int(D/L)+1) + 1
+		if !closed {
+			s.Violate(kit.Violation{Kind: "attack_does_not_end", What: "infinite-rate pacer with a duration: the results channel was not closed within 60 s", Input: in})
+			continue
+		}
+		if n > bound {
+			s.Violate(kit.Violation{Kind: "hits_released_after_deadline", What: "infinite-rate pacer with a duration: more hits than the workers can have started before the deadline plus the one allowed after it",
+				Input: in, Expected: fmt.Sprintf("<= %d hits (= workers·(floor(D/L)+1)+1)", bound), Observed: fmt.Sprint(n)})
+		}
 	}
 }
